@@ -10,6 +10,9 @@ Binding      : spec -> code: every TLC-enumerated token string is given to typeo
                strings are executed (cdef on a fresh FFI, typeof on both FFIs; the compiled half in
                a sub-process so that a crash is an outcome), every outcome is recorded and TLC
                validates all records against the contract (Trace_Errors.tla).
+               The compiled half also gets strs that are not UTF-8 encodable, embedded NULs, very long strings and
+               the near-limit family of specs/ErrorsLimit.tla (TLC computes how many opcodes each member needs; more
+               than 1200 must be refused), and runs with PYTHONMALLOC=debug.
                Thorough tier: the compiled half runs a second time against a backend built with
                clang -fsanitize=address,undefined; a sanitizer report / abnormal exit is the
                outcome class "crash".
@@ -23,21 +26,27 @@ from harness import parse_fuzz as pf
 
 LEVEL = "exploration"
 
+LIMIT_CFG = ("SPECIFICATION Spec\nCONSTANTS KS = %s\n PS = %s\n NS = %s\n Mode = \"%s\"\n Depth = 0\n"
+             " Profile = \"small\"\n Variant = \"faithful\"\nINVARIANT %s\nCHECK_DEADLOCK FALSE\n")
+
+# once expected to escape as ValueError/ZeroDivisionError (fixed in /repo since); ordinary inputs now
 EXPECTED = [("cdef", "#define FOO abc\n"), ("cdef", "#define FOO 08\n"), ("cdef", "#define X 1e5\n"),
             ("cdef", "int a[5/0];"), ("cdef", "int b[1<<-1];")]
 
 CLAUSE = {"escapes-cdef": "an exception that is not a cffi error escapes FFI.cdef()",
           "escapes-typeof": "an exception that is not a cffi error escapes FFI.typeof() (in-line FFI)",
           "escapes-compiled-typeof": "typeof() of the compiled FFI raises something else than ffi.error/TypeError/ValueError",
-          "crash": "typeof() of the compiled FFI crashed or a sanitizer reported an error"}
+          "crash": "typeof() of the compiled FFI crashed or a sanitizer / the debug allocator reported an error",
+          "over-limit-accepted": "typeof() of the compiled FFI accepted a type that needs more opcodes than the parser's "
+                                 "1200-entry buffer holds (ErrorsLimit!NeedOps)"}
 
 
 def checked_count(ctx, recs):
     """run the validation and insist that TLC saw every record"""
     bad = []
     for i in range(0, len(recs), 100000):
-        part = [{"id": k + 1, "ffi": r["ffi"], "api": r["api"], "cls": r["cls"], "origin": r["origin"]}
-                for k, r in enumerate(recs[i:i + 100000])]
+        part = [{"id": k + 1, "ffi": r["ffi"], "api": r["api"], "cls": r["cls"], "origin": r["origin"],
+                 "need": r.get("need", 0)} for k, r in enumerate(recs[i:i + 100000])]
         path = os.path.join(ctx.tmp, "c30_recs_%d.json" % i)
         core.write_json(path, part)
         r = core.tlc("Trace_Errors", workers=1, env={"TRACE_FILE": path}, timeout=1800)
@@ -98,12 +107,23 @@ def run(ctx):
         f2 = ex.submit(core.tlc, "CDecl", cfg_text=pe.gen_cfg(1, 0, 0, 1, "small") if quick
                        else pe.gen_cfg(1, 1, 0, 1, "mid"), workers=4, timeout=2400)
         f3 = ex.submit(pe.Env, ctx.tmp, "c30")
+        f4 = ex.submit(core.tlc, "ErrorsLimit", cfg_text=LIMIT_CFG % ("{0,1,2,5}", "{0,1,2}", "{0,1,2}", "law", "CountLaw"), workers=2)
+        ks = "{590,591,592,593,594,595}" if quick else "{" + ",".join(map(str, range(578, 600))) + "}"
+        f5 = ex.submit(core.tlc, "ErrorsLimit", cfg_text=LIMIT_CFG % (ks, "{0,1}" if quick else "{0,1,2}", "{0,1,2}" if quick
+                       else "{0,1,2,3}", "emit", "Emit"), workers=3, timeout=1500)
         r = f1.result()
         ctx.add_tlc("Errors(contract sanity)", r)
         r = f2.result()
         ctx.add_tlc("CDecl(renderings+near-misses)", r)
         rows = pe.parse_generator_output(r.out)
         env = f3.result()
+        r = f4.result()
+        ctx.add_tlc("ErrorsLimit(CountLaw)", r)
+        r = f5.result()
+        ctx.add_tlc("ErrorsLimit(near-limit family)", r, count_states=False)
+        limit_rows = [x for x in pe.parse_generator_output(r.out) if x[0] == "L"]
+        if not any(x[4] == 1201 for x in limit_rows) or not any(x[4] == 1200 for x in limit_rows):
+            raise core.MachineryError("the near-limit family does not straddle the limit: %s" % sorted(x[4] for x in limit_rows))
     rows_r = [x for x in rows if x[0] == "R"]
     rows_nm = [x for x in rows if x[0] == "NM"]
     if not rows_nm:
@@ -118,12 +138,24 @@ def run(ctx):
                      "text": text, "kind": kind})
     # ---------------------------------------------------------------- compiled half (sub-process)
     tstrings = [t for a, t, _k in inputs if a == "typeof"]
-    # strings that cannot be passed as JSON/utf-8 text to the worker are left to the in-line half
-    tstrings = [t for t in tstrings if _encodable(t)]
-    cres = pf.run_compiled(ctx.tmp, env.api_name, tstrings, tag="plain")
+    # strings only the compiled half gets: not encodable as UTF-8 (lone surrogates), embedded NUL, very long, and
+    # the near-limit family with the number of opcodes each member needs (from TLC)
+    need = {}
+    for t in pf.special_strings(ctx.rng, 60 if quick else 600):
+        if t not in need:
+            need[t] = 0
+            tstrings.append(t)
+    for _l, k, p, n, nd, text in limit_rows:
+        need[text] = nd
+        tstrings.append(text)
+        for extra in ("\udc80", " x", "\x00"):                  # the same types with trailing noise: need unknown
+            tstrings.append(text + extra)
+    # plain pass with the debug allocator: a write past a PyMem_Malloc'ed buffer aborts the worker at free time
+    cres = pf.run_compiled(ctx.tmp, env.api_name, tstrings, env=core.sub_env(PYTHONMALLOC="debug"), tag="plain")
     for t, (cls, msg) in zip(tstrings, cres):
-        recs.append({"ffi": "compiled", "api": "typeof", "cls": cls, "origin": "-", "site": "-", "msg": msg,
-                     "text": t, "kind": "compiled"})
+        recs.append({"ffi": "compiled", "api": "typeof", "cls": cls, "origin": "-",
+                     "site": pf.crash_site(msg) if cls == "crash" else "-", "msg": msg,
+                     "text": t, "kind": "compiled", "need": need.get(t, 0)})
     san = 0
     if not quick:
         d = core.build_backend(extra_flags=["-fsanitize=address,undefined", "-fno-omit-frame-pointer", "-O1",
@@ -133,7 +165,7 @@ def run(ctx):
         for t, (cls, msg) in zip(tstrings, sres):
             recs.append({"ffi": "compiled", "api": "typeof", "cls": cls, "origin": "-",
                          "site": "asan:" + pf.crash_site(msg) if cls == "crash" else "asan", "msg": msg,
-                         "text": t, "kind": "compiled-sanitized"})
+                         "text": t, "kind": "compiled-sanitized", "need": need.get(t, 0)})
         san = len(sres)
     # ---------------------------------------------------------------- code -> spec: TLC validates
     bad = checked_count(ctx, recs)
@@ -141,7 +173,8 @@ def run(ctx):
         r = recs[idx]
         key = vkey(r)
         ctx.violation(key, "%s: %s(%r) -> %s: %s" % (CLAUSE.get(clause, clause), r["api"], r["text"][:200], r["cls"], r["msg"]),
-                      {"ffi": r["ffi"], "api": r["api"], "text": r["text"], "sanitized": r["site"].startswith("asan")})
+                      {"ffi": r["ffi"], "api": r["api"], "text": r["text"], "sanitized": r["site"].startswith("asan"),
+                       "need": r.get("need", 0)})
     vk = {}
     for idx, clause in bad:
         r = recs[idx]
@@ -169,7 +202,9 @@ def run(ctx):
         "typeof as well",
         "inputs are at most a few hundred bytes; resource exhaustion (deep nesting -> RecursionError, huge shifts) is "
         "not part of the input space",
-        "memory safety is observed by ASan/UBSan on the replayed inputs (thorough tier), not specified"]
+        "memory safety is observed (debug allocator in the quick tier, ASan/UBSan in the thorough tier), not specified, "
+        "except for the opcode-buffer rule of ErrorsLimit.tla",
+        "RuntimeError 'type-building recursion too deep' (more than 1000 nested levels) is tolerated as a resource limit"]
 
 
 import re
@@ -179,7 +214,8 @@ _HUGE_SHIFT = re.compile(r"<<[-+~!(\s]*\d{4,}|<<[-+~!(\s]*0[xX][0-9a-fA-F]{3,}")
 def vkey(r):
     """ffi:api:class:site[:head of the message, digits abstracted] - the specific call site and failure"""
     if r["ffi"] != "inline":
-        return "%s:%s:%s:%s" % (r["ffi"], r["api"], r["cls"], r["site"])
+        over = ":over-limit" if r.get("need", 0) > 1200 else ""
+        return "%s:%s:%s:%s%s" % (r["ffi"], r["api"], r["cls"], r["site"], over)
     head = re.sub(r"\d+", "N", r["msg"].split(":")[0])[:60]
     return "%s:%s:%s:%s:%s" % (r["ffi"], r["api"], r["cls"], r["site"], head)
 
@@ -205,10 +241,11 @@ def replay(ctx, obj):
                                                 "-shared-libasan", "-fno-sanitize=function,alignment",
                                             "-fsanitize-recover=address,undefined"], cc="clang", tag="asan")
             e = pf.asan_env(d, ctx.tmp)
-        (cls, msg), = pf.run_compiled(ctx.tmp, env.api_name, [rp["text"]], env=e, tag="replay")
+        (cls, msg), = pf.run_compiled(ctx.tmp, env.api_name, [rp["text"]], env=e or core.sub_env(PYTHONMALLOC="debug"),
+                                      tag="replay")
         recs = [{"ffi": "compiled", "api": "typeof", "cls": cls, "origin": "-",
                  "site": ("asan:" + pf.crash_site(msg) if cls == "crash" else "asan") if e else "-", "msg": msg,
-                 "text": rp["text"]}]
+                 "text": rp["text"], "need": rp.get("need", 0)}]
     bad = checked_count(ctx, recs)
     for idx, clause in bad:
         r = recs[idx]
@@ -218,13 +255,14 @@ def replay(ctx, obj):
 
 def selftest(ctx):
     recs = [{"ffi": "inline", "api": "cdef", "cls": "CDefError", "origin": "parser"},
-            {"ffi": "compiled", "api": "typeof", "cls": "ffi.error", "origin": "-"}]
+            {"ffi": "compiled", "api": "typeof", "cls": "ffi.error", "origin": "-", "need": 1201},
+            {"ffi": "compiled", "api": "typeof", "cls": "ok", "origin": "-", "need": 1200}]
     ok1 = not checked_count(ctx, recs)
-    cls, origin, site, msg = pf.inline_outcome("cdef", "int a[5/0];")
-    recs2 = [{"ffi": "inline", "api": "cdef", "cls": cls, "origin": origin},
-             {"ffi": "compiled", "api": "typeof", "cls": "crash", "origin": "-"}]
+    recs2 = [{"ffi": "inline", "api": "cdef", "cls": "ZeroDivisionError", "origin": "parser"},
+             {"ffi": "compiled", "api": "typeof", "cls": "crash", "origin": "-"},
+             {"ffi": "compiled", "api": "typeof", "cls": "ok", "origin": "-", "need": 1201}]
     bad = checked_count(ctx, recs2)
-    return ok1 and [b[1] for b in bad] == ["escapes-cdef", "crash"]
+    return ok1 and [b[1] for b in bad] == ["escapes-cdef", "crash", "over-limit-accepted"]
 
 
 META = {
@@ -234,7 +272,8 @@ META = {
             "grammar), the harness adds seeded byte-level mutants of a corpus of declaration texts and type strings; "
             "every input runs through cdef()/typeof() of the in-line FFI and typeof() of an API-mode FFI (sub-process; "
             "thorough tier also against a clang ASan+UBSan build of the backend), and TLC validates every recorded "
-            "outcome against the contract.",
+            "outcome against the contract, including the opcode-buffer rule (ErrorsLimit.tla: NeedOps checked against the "
+            "transcribed parser; a type needing more than 1200 opcodes must raise ffi.error).",
     "note": "TLA+ decides only the outcome-class contract; out-of-bounds reads are observed by the sanitizers on the "
             "replayed inputs, not specified. Fuzzing is sampling: exhaustive only for the token-level near-miss set.",
     "technique": "TLA+ outcome contract + TLC-enumerated near-misses + seeded byte-level fuzzing + sanitizer build + TLC trace validation",
